@@ -179,6 +179,33 @@ func checkErrChecked(r *Reporter, p *Prog, rule string, sc errScope) {
 	}
 }
 
+// isNonNilErrorConstructor: the constructors that return a non-nil error whatever they are given (all of
+// them end in fmt.Errorf / errors.New). Join, Chain and WithStack are NOT among them: they hand back nil
+// for nil input - `return ierrors.WithStack(err)` is a failure return only where err is non-nil.
+// (checkErrorConstructorsNonNil verifies this list against the bodies in hive.go/ierrors.)
+func isNonNilErrorConstructor(callee string) bool {
+	for _, s := range []string{"Wrap", "Wrapf", "Errorf", "New", "WithMessage", "WithMessagef"} {
+		if callee == "ierrors."+s || callee == "errors."+s || callee == "fmt."+s {
+			return true
+		}
+	}
+	return false
+}
+
+// errorPassthrough: WithStack(err) has the nil-ness of err.
+func errorPassthrough(info *types.Info, e ast.Expr) ast.Expr {
+	for {
+		c, ok := ast.Unparen(e).(*ast.CallExpr)
+		if !ok || len(c.Args) != 1 {
+			return e
+		}
+		if k := calleeShort(info, c); k != "ierrors.WithStack" && k != "errors.WithStack" {
+			return e
+		}
+		e = c.Args[0]
+	}
+}
+
 func isErrorConstructor(callee string) bool {
 	for _, s := range []string{"Wrap", "Wrapf", "Errorf", "New", "WithStack", "WithMessage", "WithMessagef", "Join", "Chain"} {
 		if callee == "ierrors."+s || callee == "errors."+s || callee == "fmt."+s {
